@@ -365,8 +365,13 @@ impl ValueSetT for ValueSetKeyInternal {
 
         for (k_other, v_other) in b.iter() {
             if let Some(v_self) = self.map.get_mut(k_other) {
-                // Revoked is always a greater status than retained or valid.
-                if v_other.status > v_self.status {
+                // Revoked is always a greater status than retained or valid. On equal
+                // status the earliest status cid must win (as for SessionState::RevokedAt),
+                // otherwise the result depends on the order in which replicas merge.
+                if v_other.status > v_self.status
+                    || (v_other.status == v_self.status
+                        && v_other.status_cid < v_self.status_cid)
+                {
                     *v_self = v_other.clone();
                 }
             } else {
@@ -389,8 +394,13 @@ impl ValueSetT for ValueSetKeyInternal {
 
         for (k_other, v_other) in b.iter() {
             if let Some(v_self) = map.get_mut(k_other) {
-                // Revoked is always a greater status than retained or valid.
-                if v_other.status > v_self.status {
+                // Revoked is always a greater status than retained or valid. On equal
+                // status the earliest status cid must win (as for SessionState::RevokedAt),
+                // otherwise the result depends on the order in which replicas merge.
+                if v_other.status > v_self.status
+                    || (v_other.status == v_self.status
+                        && v_other.status_cid < v_self.status_cid)
+                {
                     *v_self = v_other.clone();
                 }
             } else {
